@@ -5,7 +5,7 @@ import copy
 import random
 
 from ..common import Check, drive, replay as _replay, uncps, cps
-from ..docs import rule_dict, body_plain
+from ..docs import rule_dict, body_plain, with_global
 from ..backend import make_backend
 
 K = dict(prec=["not", "and", "or"], paren=False, sep=1, orin=False, andin=False, inwild=False, sw=False, ew=False, ct=False, wm=False,
@@ -43,9 +43,22 @@ def _convert(docs, seed, pipe=False):
     from sigma.exceptions import SigmaError
 
     r = {"ok": False, "out": [], "exc": "", "sigma": False}
+    import contextlib
+    from unittest import mock
+
+    draws = contextlib.nullcontext()
+    if seed == "repeat":  # the generator hands out every draw TWICE in a row: aaaa.., aaaa.., bbbb.., bbbb.., ...
+        n = [0]
+
+        def choices(population, k=1, **kw):
+            n[0] += 1
+            return [population[((n[0] - 1) // 2) % len(population)]] * k
+
+        draws = mock.patch.object(random, "choices", choices)
     try:
-        random.seed(seed)
-        coll = SigmaCollection.from_dicts(copy.deepcopy(docs))
+        random.seed(0 if seed == "repeat" else seed)
+        with draws:
+            coll = SigmaCollection.from_dicts(copy.deepcopy(docs))
         from sigma.processing.pipeline import ProcessingPipeline
 
         b = make_backend(K, ProcessingPipeline.from_dict(copy.deepcopy(PIPE))) if pipe else make_backend(K)
@@ -60,13 +73,15 @@ def _convert(docs, seed, pipe=False):
 def drive_case(case):
     rules = [rule_doc(r, i + 1) for i, r in enumerate(case["rules"])]
     filters = [filter_doc(f, i + 1) for i, f in enumerate(case["filters"])]
+    if case.get("glob"):
+        rules = with_global(rules)
     return {
         "id": case["id"],
         "rules": case["rules"],
         "filters": case["filters"],
         "pipe": bool(case.get("pipe")),
         "plain": _convert(rules, 0, bool(case.get("pipe"))),
-        "filtered": [_convert(rules + filters, s, bool(case.get("pipe"))) for s in (11, 12)],
+        "filtered": [_convert(rules + filters, s, bool(case.get("pipe"))) for s in (11, 12, "repeat")],
     }
 
 
@@ -91,6 +106,11 @@ def run(tier: str, seed: int) -> int:
     if neg.invariant_violated != "NoCaptureEitherWay":
         raise tlc.MachineryError("negative control: selector matching without name spaces for generated names not refuted")
     chk.coverage["negative_control"] = {"cfg": "MC_Filter_negative.cfg (generated names within reach of every pattern)", "refuted_invariant": neg.invariant_violated}
+    chk.model_check("MC_FilterStack")
+    neg = tlc.run_tlc("MC_FilterStack", "MC_FilterStack_negative.cfg", workers=4, check_ok=False)
+    if neg.invariant_violated != "BothFiltersMean":
+        raise tlc.MachineryError("negative control: a second filter application that keeps a prefix already in use not refuted")
+    chk.coverage["negative_control_stack"] = {"cfg": "MC_FilterStack_negative.cfg (a draw whose names are in use is kept)", "refuted_invariant": neg.invariant_violated}
     cases = chk.generate("Gen_C11")
     obs = drive("harness.props.c11", "drive_case", cases, chunk=50)
     verdicts = chk.judge("Judge_C11", obs)
@@ -101,16 +121,16 @@ def run(tier: str, seed: int) -> int:
     chk.absorb(verdicts, by_id, {c["id"]: c for c in cases})
     samples = [by_id[o["id"]] for o in obs[:: max(1, len(obs) // 4)]][:4]
     return chk.finish(
-        evaluations=len(obs) * 2,
+        evaluations=len(obs) * 3,
         distinct_nontrivial=len(obs),
         rule="TLC (Gen_C11) enumerates 6 rule conditions (identifiers, selectors, them, keyword-prefixed names) x 7 filter "
         "conditions (identifiers, not, them, prefix/suffix patterns; filter detections named sel, 1x, ax, And, notable - "
         "overlapping with the rule's) x 6 log-source relations x 5 rule-list kinds (name, id, any, empty, other rule), "
         "two-condition rules, two rules targeted by one filter and converted through a field-renaming pipeline, stacked filters (quick: 150 sampled) and a family with an underscore-leading filter "
-        "detection; every pair is converted under two seeds of the random prefix, with a bystander rule; all pairs are "
+        "detection; every pair is converted under two seeds of the random prefix and with a generator that hands out every draw twice in a row (stacked filters then draw the SAME prefix), with a bystander rule; all pairs are "
         "distinct and non-trivial",
         samples=samples,
-        traces=len(obs) * 2,
+        traces=len(obs) * 3,
         exhaustive=True,
     )
 
